@@ -69,6 +69,10 @@ void ddp_replace_char_in_string(ddpstring *str, ddpchar ch, ddpint index) {
 	} else if (oldCharLen > newCharLen) { // no need for allocations
 		memcpy(str->str + i, newChar, newCharLen);
 		memmove(str->str + i + newCharLen, str->str + i + oldCharLen, str->cap - i - oldCharLen);
+		// the text got shorter: cap must keep counting exactly the bytes of the text (plus null-terminator)
+		size_t newStrCap = str->cap - oldCharLen + newCharLen;
+		str->str = ddp_reallocate(str->str, str->cap, newStrCap);
+		str->cap = newStrCap;
 	} else {
 		size_t newStrCap = str->cap - oldCharLen + newCharLen;
 		char *newStr = DDP_ALLOCATE(char, newStrCap);
